@@ -2269,3 +2269,34 @@ def r8_17(rep):
         early = [n for n in b.walk(comp["body"]) if n["k"] == "Ret" and "CanDerive::No" not in b.canon(n.get("e") or {}, 3)
                  and n["s"][1] < test[0]["s"][1]]
         rep.check(not early, "destructor-asked:comp-first", "nothing but `No` is returned before the destructor test in the Comp arm", b.loc(comp["body"]))
+
+
+@RULES.rule("R8.18", "the Rust-union restriction of the opaque short cut sees through type references", floor=1)
+def r8_18(rep):
+    """A member declared `union U u;` has a type-reference item as its type; with `--opaque-type U` that reference is opaque by name
+    and is spelled `U` — a Rust union that only derives Copy/Clone.  The union test in the opaque short cut of
+    `CannotDerive::constrain_type` must therefore be made on what the reference refers to, not on the reference's own kind
+    (before the fix `struct S { union U u; }` derived Debug, Hash and PartialEq: E0277)."""
+    prog = rep.prog
+    b = rep.need(next((x for p, x in prog.bodies.items() if p.endswith("::constrain_type") and "derive" in p), None), "CannotDerive::constrain_type")
+    sites = [c for c in b.calls(lambda x: x["k"] == "MCall" and (x.get("callee") or x.get("resolved") or "").endswith("ty::Type::is_union"))
+             if any(kind == "cond" and pol and "is_opaque" in b.canon(g, 6) for pol, kind, g in b.guards(c))]
+    rep.need(sites, "the is_union test inside the opaque short cut")
+    for c in sites:
+        r = strip(c["recv"])
+        ok = False
+        why = b.canon(r, 6)[:80]
+        if r.get("k") == "Local" and r["id"] in b.local_assigned:
+            # a cursor variable advanced through ResolvedTypeRef
+            for n in b.nodes:
+                if n["k"] == "Assign" and strip(n["l"]).get("k") == "Local" and strip(n["l"])["id"] == r["id"] and "resolve_type" in b.canon(n["r"], 4):
+                    loops = [a for a in b.ancestors(n) if a["k"] in ("While", "Loop", "For")]
+                    if loops and "ResolvedTypeRef" in json.dumps(loops[0].get("cond") or loops[0])[:4000]:
+                        ok = True
+                        why = "a cursor advanced through TypeKind::ResolvedTypeRef"
+        elif "canonical_type" in b.canon(r, 8):
+            ok = True
+            why = "the canonical type"
+        rep.check(ok, "union-test-on-referent", "tested on " + why if ok else
+                  "`is_union()` is asked of `%s`, the item's own type: a reference to an opaque union is not a union by kind, so its users "
+                  "derive traits the emitted Rust union does not have" % why, b.loc(c))
